@@ -19,7 +19,17 @@ change). Where a seed was missed, the column on the right names the workload or 
 added; each of them is described in §8.1.
 
 '''
-block=begin+'\n'+intro+table+'\n'+end
+notes='''
+Notes. 134 seed × check runs; 131 report a violation of the seeded change (C12-1 only through C01's
+progress clause, C03-7 only through C11's readability clause, as the rows say); C12-7 is not caught.
+Two detections are sensitive to circumstances: C10-5 (two writers must interleave on one ICE-TCP
+stream) was missed once when five matrix lanes and a quick sweep shared the machine and is caught when
+run alone; C13-6 was caught in about half of the runs until the `tsnwrap-bulk` scenarios were added
+(now 3 of 3 seeds). Under C12-8 every association with the empty-label channel stalls, and the full
+quick tier then needs more than 40 minutes because stalled scenarios wait for their watchdogs; its row
+was produced with `--limit 40` (151 s), the violations are the same.
+'''
+block=begin+'\n'+intro+table+notes+'\n'+end
 if begin in s:
     s=re.sub(re.escape(begin)+r'.*?'+re.escape(end),lambda m:block,s,flags=re.S)
 else:
